@@ -325,23 +325,29 @@ def invalid_link_sets(ctx):
     """chains and double targets must be refused when the link is added"""
     from jsonargparse import ArgumentParser
 
-    bad = [
-        ("chain: target used as source", [("a", "c"), ("c", "d")]),
-        ("chain: source is a target", [("a", "d"), ("d", "c")]),
-        ("same target twice", [("a", "c"), ("b", "c")]),
-        ("unknown source", [("zz", "c")]),
-        ("unknown target", [("a", "zz")]),
-    ]
-    for name, links in bad:
-        case = {"kind": "invalid-link-set", "name": name, "links": [list(l) for l in links]}
+    bad = []
+    for names in (dict(a="a", b="b", c="c", d="d"), dict(a="alpha", b="beta.x", c="gamma", d="delta_long")):  # (guards must not depend on the length of a name)
+        a, b, c, d = names["a"], names["b"], names["c"], names["d"]
+        bad += [
+            ("chain: target used as source", names, [(a, c), (c, d)]),
+            ("chain: source is a target", names, [(a, d), (d, c)]),
+            ("chain declared consumer first: target is the source of an earlier link", names, [(c, d), (a, c)]),
+            ("chain declared consumer first, two-source consumer", names, [((c, b), d), (a, c)]),
+            ("chain through a two-source link", names, [((a, b), c), (c, d)]),
+            ("same target twice", names, [(a, c), (b, c)]),
+            ("unknown source", names, [("zz", c)]),
+            ("unknown target", names, [(a, "zz")]),
+        ]
+    for name, names, links in bad:
+        case = {"kind": "invalid-link-set", "name": name, "links": [[list(s_) if isinstance(s_, tuple) else s_, t_] for s_, t_ in links]}
         ctx.begin(case)
         p = ArgumentParser(exit_on_error=False)
-        for k in "abcd":
+        for k in names.values():
             p.add_argument("--" + k, type=int, default=0)
         err = None
         try:
             for s_, t_ in links:
-                p.link_arguments(s_, t_)
+                p.link_arguments(s_, t_, compute_fn=(add2 if isinstance(s_, tuple) else None))
         except ValueError as ex:
             err = ex
         except Exception as ex:  # noqa
